@@ -413,6 +413,46 @@ func RunCheck(p *Prop, tier string) int {
 		}
 	}
 
+	var suppCov map[string]any
+	if p.Supplement != nil {
+		sr := p.Supplement(&SuppCtx{Tier: tier, BinDir: binDir, OutDir: vd, Work: work})
+		if sr != nil && sr.Error != "" {
+			fmt.Println("HARNESS-ERROR", sr.Error)
+			return 2
+		}
+		if sr != nil {
+			suppCov = sr.Coverage
+			seenKey := map[string]bool{}
+			for _, f := range sr.Findings {
+				k := f.Kind + "|" + f.Shape
+				violCounts[k]++
+				if seenKey[k] {
+					continue
+				}
+				seenKey[k] = true
+				sum := sha256.Sum256([]byte(p.ID + "|supp|" + k))
+				path := filepath.Join(vd, "replays", fmt.Sprintf("%s-%x.txt", p.ID, sum[:6]))
+				os.WriteFile(path, []byte(f.Artefact), 0o644)
+				confirmed++
+				matched := false
+				for _, kf := range kn {
+					if kf.kind == f.Kind && kf.shape == f.Shape {
+						matched = true
+						if !kf.seen {
+							kf.seen = true
+							fmt.Printf("KNOWN-FINDING: property=%s %s [kind=%s shape=%s replay=%s]\n", p.ID, kf.what, kf.kind, kf.shape, path)
+						}
+					}
+				}
+				if !matched {
+					fmt.Printf("VIOLATION property=%s replay=%s\n", p.ID, path)
+					fmt.Printf("  kind=%s shape=%s (supplementary pass)\n  detail: %s\n", f.Kind, f.Shape, firstLines(f.Detail, 30))
+					exit = 1
+				}
+			}
+		}
+	}
+
 	cov := map[string]any{
 		"evaluations":               evals,
 		"executions":                execs,
@@ -435,6 +475,9 @@ func RunCheck(p *Prop, tier string) int {
 		"nondeterministic":          nondetKeys,
 		"groups_not_replayed":       max(0, unknownSeen-maxConfirm),
 		"budget_s":                  budget.Seconds(),
+	}
+	if suppCov != nil {
+		cov["supplement"] = suppCov
 	}
 	if p.MC || p.Level == "model_checking" {
 		cov["states"] = len(states)
